@@ -66,6 +66,15 @@ structure Cfg where
   /-- header timestamp of block `n` of the chain the node follows (the blocks are manufactured once; the
   unpruned twin holds them) -/
   ts : Nat → Nat := fun _ => 0
+  /-- header timestamp of block `n` on the `f`-th OTHER fork the network switches to (`Op.fork`), `f ≥ 1`; the
+  chain as first offered (fork 0) is `ts`. A reorg replaces the blocks above the node's head by those of the
+  next fork; they carry their own timestamps. -/
+  forkTs : Nat → Nat → Nat := fun _ _ => 0
+  /-- min-age sample variant: before the cached sample is used for a prune the block right below it must still
+  be there and older than the minimum age, else `seedFloor` runs again (`true`,
+  proposed-fixes/C16-stale-min-age-sample-after-reorg.diff: `refreshStaleSample`), or the cache is used as it
+  is (`false`, the code in /repo) -/
+  sampleChecked : Bool := false
 
 /-- `applyTimeFloor`: `if p.minAge == 0 { return standardFloor }; return min(p.latestSampledHeight, standardFloor)` -/
 def applyTimeFloor (c : Cfg) (sampled standardFloor : UInt64) : UInt64 :=
@@ -245,6 +254,24 @@ inductive Job
   | run (start end_ cur : Nat) (first : Bool)
   deriving DecidableEq, Repr
 
+/-- The chain the node follows, as far as timestamps go. The network may switch to another fork (`Op.fork`):
+the blocks above the node's head are then other blocks, with other timestamps; the node learns them by storing
+them (after it has reverted down to the fork point). -/
+structure Chain where
+  /-- once a fork switch has happened (`fork > 0`): the header timestamp of block `n` — of the STORED block for
+  `n ≤ head`, of the block the network delivers next for `n` above the head. Before the first switch the
+  timestamps are `Cfg.ts` (see `St.tsAt`). -/
+  ts : Nat → Nat := fun _ => 0
+  /-- number of fork switches so far -/
+  fork : Nat := 0
+  /-- GHOST (only the theorems read it): at every fork switch the first block of the new fork was not older than
+  the block it builds on (block timestamps do not decrease along a chain) -/
+  mono : Bool := true
+  /-- GHOST: no fork switch replaced a block number between the node's head and the CACHED min-age sample
+  (`latestSampledHeight`) by a block that is younger than the minimum age. `false` = the history of
+  `Props.stale_min_age_sample_after_reorg`. -/
+  fresh : Bool := true
+
 structure St where
   db : Db
   mem : Mem
@@ -252,8 +279,24 @@ structure St where
   /-- the wall clock, as the pruner uses it: `now - minAge` in unix seconds. Blocks with a timestamp at or
   after it are younger than the minimum age. It only moves forward (`Op.advance`). -/
   cutoff : Nat := 0
+  chain : Chain := {}
 
 def St.init : St := { db := Db.empty, mem := {}, job := .idle }
+
+/-- Header timestamp of block `n` of the chain the node currently follows. -/
+def St.tsAt (c : Cfg) (s : St) (n : Nat) : Nat := if s.chain.fork = 0 then c.ts n else s.chain.ts n
+
+/-- The first block number above the node's head. -/
+def forkBase (d : Db) : Nat := match d.height with | none => 0 | some h => h + 1
+
+/-- `Op.fork`: the network switches to the next fork above the node's head. -/
+def forkChain (c : Cfg) (s : St) : Chain :=
+  let h1 := forkBase s.db   -- the first block number that changes hands
+  let ts' : Nat → Nat := fun n => if n < h1 then s.tsAt c n else c.forkTs (s.chain.fork + 1) n
+  { ts := ts', fork := s.chain.fork + 1,
+    mono := s.chain.mono && (h1 == 0 || decide (s.tsAt c (h1 - 1) ≤ ts' h1)),
+    fresh := s.chain.fresh &&
+      (List.range (s.mem.sampled.toNat - h1)).all (fun j => decide (ts' (h1 + j) < s.cutoff)) }
 
 /-- The node after `k ≥ 1` stores on the empty database, in closed form (the driver starts long chains
 from it; `Props.bulk_is_k_stores` proves it is the same database). -/
@@ -290,6 +333,10 @@ inductive Op
   state diff of some retained block names a key without a legacy history entry (zero written to an empty slot;
   on the new state backend: any key). -/
   | migrate (unchangedSlot : Bool)
+  /-- a reorg as the node sees it begin: the network switches to another fork above the node's head (the node
+  has reverted down to the fork point, or is about to learn that its head is the fork point); the blocks it
+  stores from now on are those of the new fork, with their own timestamps `Cfg.forkTs` -/
+  | fork
   deriving DecidableEq, Repr
 
 inductive Out
@@ -383,34 +430,55 @@ def migrateReadsOk (d : Db) (keep h : Nat) : Bool :=
 
 /-- `sampleHeight` on the node: chain height missing → nothing; a probed header missing → error, the old
 sample stays; else the search result (`ErrNoBlockInWindow` → chain height). -/
-def sampleNode (c : Cfg) (d : Db) (cutoff : Nat) (sampled : UInt64) : UInt64 :=
+def sampleNode (ts : Nat → Nat) (d : Db) (cutoff : Nat) (sampled : UInt64) : UInt64 :=
   match d.height with
   | none => sampled
   | some h =>
     if sampled.toNat > h then UInt64.ofNat h      -- `lower > upper` → ErrNoBlockInWindow → chain height
-    else if probesPresent (d.has .hdr) c.ts cutoff (h + 1 - sampled.toNat + 1) sampled.toNat (h + 1) then
-      UInt64.ofNat (sampleHeight c.ts sampled.toNat h cutoff)
+    else if probesPresent (d.has .hdr) ts cutoff (h + 1 - sampled.toNat + 1) sampled.toNat (h + 1) then
+      UInt64.ofNat (sampleHeight ts sampled.toNat h cutoff)
     else sampled
+
+/-- Does `sampleHeight` return without error (every header the search probes is there)? -/
+def sampleOk (ts : Nat → Nat) (d : Db) (cutoff : Nat) (sampled : UInt64) : Bool :=
+  match d.height with
+  | none => true
+  | some h =>
+    decide (sampled.toNat > h) ||
+      probesPresent (d.has .hdr) ts cutoff (h + 1 - sampled.toNat + 1) sampled.toNat (h + 1)
 
 /-- `seedFloor` (start of `Run`, only with `minAge > 0`): `latestSampledHeight = OldestRetainedBlock`, then
 `sampleHeight`; an empty database leaves 0. -/
-def seedSample (c : Cfg) (d : Db) (cutoff : Nat) : UInt64 :=
+def seedSample (c : Cfg) (ts : Nat → Nat) (d : Db) (cutoff : Nat) : UInt64 :=
   if c.minAge then
     match oldest d with
     | none => 0
-    | some o => sampleNode c d cutoff (UInt64.ofNat o)
+    | some o => sampleNode ts d cutoff (UInt64.ofNat o)
   else 0
+
+/-- `refreshStaleSample` (proposed fix, `Cfg.sampleChecked`): `if minAge == 0 || latestSampledHeight == 0 { return
+nil }`; the timestamp of block `latestSampledHeight-1` is read: there and before the cut-off → the cache stands;
+missing (`ErrKeyNotFound`) or at/after the cut-off → `seedFloor()`: `OldestRetainedBlock` missing → nothing;
+else `latestSampledHeight = oldest` and `sampleHeight()`. Result: the new sample, and `false` when the search
+returned an error (the handler returns it; the sample then stays at `oldest`). -/
+def refreshSample (c : Cfg) (ts : Nat → Nat) (d : Db) (cutoff : Nat) (sampled : UInt64) : UInt64 × Bool :=
+  if !c.minAge || sampled == 0 then (sampled, true)
+  else if d.has .hdr (sampled.toNat - 1) && decide (ts (sampled.toNat - 1) < cutoff) then (sampled, true)
+  else
+    match oldest d with
+    | none => (sampled, true)
+    | some o => (sampleNode ts d cutoff (UInt64.ofNat o), sampleOk ts d cutoff (UInt64.ofNat o))
 
 /-- Restart: every in-memory field is rebuilt; the floor is (optionally) seeded from the database, the
 min-age sample is seeded by the new pruner. -/
-def restartMem (c : Cfg) (d : Db) (cutoff : Nat) (seed : Bool) : Mem :=
+def restartMem (c : Cfg) (ts : Nat → Nat) (d : Db) (cutoff : Nat) (seed : Bool) : Mem :=
   { floorState := if seed then seedState 0 (UInt64.ofNat ((oldest d).getD 0)) else 0,
-    sampled := seedSample c d cutoff }
+    sampled := seedSample c ts d cutoff }
 
 /-- The migration's own min-age search: `FindOldestBlockAtOrAfter(database, 0, pivot, now-minAge)`. -/
-def migMinAgeFloor (c : Cfg) (height : Nat) (l1 : UInt64) (cutoff : Nat) : Option UInt64 :=
+def migMinAgeFloor (ts : Nat → Nat) (height : Nat) (l1 : UInt64) (cutoff : Nat) : Option UInt64 :=
   let pivot := if l1.toNat ≤ height then l1.toNat else height
-  (findOldestAtOrAfter c.ts 0 pivot cutoff).map UInt64.ofNat
+  (findOldestAtOrAfter ts 0 pivot cutoff).map UInt64.ofNat
 
 def step (c : Cfg) (s : St) : Op → St × Out
   | .store =>
@@ -435,14 +503,24 @@ def step (c : Cfg) (s : St) : Op → St × Out
     | .idle, some h =>
       match l1Keep c s.mem.sampled h n with
       | none => (s, .noop)
-      | some keep => startPrune { s with mem := { s.mem with pending := 0 } } keep
+      | some keep =>
+        if c.sampleChecked then
+          -- proposed fix: `refreshStaleSample()` right after `p.pendingL2Heads = 0`
+          let r := refreshSample c (s.tsAt c) s.db s.cutoff s.mem.sampled
+          let s1 : St := { s with mem := { s.mem with pending := 0, sampled := r.1 } }
+          if r.2 then
+            match l1Keep c r.1 h n with
+            | none => (s1, .noop)       -- not taken: the guards do not read the sample
+            | some keep' => startPrune s1 keep'
+          else (s1, .err)
+        else startPrune { s with mem := { s.mem with pending := 0 } } keep
   | .evL2 n =>
     match s.job, s.db.l1 with
     | .run .., _ => (s, .bad)
     | .idle, none => (s, .noop)
     | .idle, some l1 =>
       -- `withinTimeWindow(block.Timestamp, minAge)`: the event's block is younger than the minimum age
-      let within := decide (s.cutoff ≤ c.ts n.toNat)
+      let within := decide (s.cutoff ≤ s.tsAt c n.toNat)
       -- proposed fix: `if block.Number > chainHeight { return nil }` (chain height missing: nothing to prune)
       let stale := c.l2Clamps && (match s.db.height with | none => true | some h => decide (h < n.toNat))
       if stale then (s, .noop)
@@ -450,6 +528,10 @@ def step (c : Cfg) (s : St) : Op → St × Out
       else
         let p := s.mem.pending + 1
         if p < c.l2PerPrune then ({ s with mem := { s.mem with pending := p } }, .noop)
+        else if c.sampleChecked then
+          let r := refreshSample c (s.tsAt c) s.db s.cutoff s.mem.sampled
+          let s1 : St := { s with mem := { s.mem with pending := 0, sampled := r.1 } }
+          if r.2 then startPrune s1 (l2Keep c r.1 n within) else (s1, .err)
         else startPrune { s with mem := { s.mem with pending := 0 } } (l2Keep c s.mem.sampled n within)
   | .flush k =>
     match s.job with
@@ -475,32 +557,34 @@ def step (c : Cfg) (s : St) : Op → St × Out
     match s.job with
     | .idle => (s, .bad)
     | .run .. => ({ s with job := .idle }, .err)
-  | .crash seed => ({ s with mem := restartMem c s.db s.cutoff seed, job := .idle }, .ok)
+  | .crash seed => ({ s with mem := restartMem c (s.tsAt c) s.db s.cutoff seed, job := .idle }, .ok)
   | .tick =>
-    if c.minAge then ({ s with mem := { s.mem with sampled := sampleNode c s.db s.cutoff s.mem.sampled } }, .ok)
+    if c.minAge then
+      ({ s with mem := { s.mem with sampled := sampleNode (s.tsAt c) s.db s.cutoff s.mem.sampled } }, .ok)
     else (s, .noop)
+  | .fork => ({ s with chain := forkChain c s }, .ok)
   | .advance d => ({ s with cutoff := s.cutoff + d }, .ok)
   | .migrate unchangedSlot =>
     match s.job, s.db.height, s.db.l1 with
     | .run .., _, _ => (s, .bad)
-    | .idle, none, _ => ({ s with mem := restartMem c s.db s.cutoff true }, .noop)   -- "no chain data yet"
+    | .idle, none, _ => ({ s with mem := restartMem c (s.tsAt c) s.db s.cutoff true }, .noop)   -- "no chain data yet"
     | .idle, some _, none => (s, .err)                                    -- `getting L1 head` fails, the node does not start
     | .idle, some h, some l1 =>
-      match migKeep c h l1 (migMinAgeFloor c h l1 s.cutoff) with
-      | none => ({ s with mem := restartMem c s.db s.cutoff true }, .noop)
+      match migKeep c h l1 (migMinAgeFloor (s.tsAt c) h l1 s.cutoff) with
+      | none => ({ s with mem := restartMem c (s.tsAt c) s.db s.cutoff true }, .noop)
       | some keep =>
         -- what `setupBeforeStager` has written by the time a later phase fails
         let afterSetup := (s.db.del (fun i m => rangeDel keep.toNat i m || i == .h2n || i == .txl || i == .l1m)).pruneAgg keep.toNat
         if keep = 0 then
-          if c.migZeroNoop then ({ s with mem := restartMem c s.db s.cutoff true }, .noop)
+          if c.migZeroNoop then ({ s with mem := restartMem c (s.tsAt c) s.db s.cutoff true }, .noop)
           -- `setupBeforeRestorer` reads the header of `oldestBlockKept - 1` = block 2^64-1: the migration
           -- fails after the lookup buckets were wiped, on every start
-          else ({ s with db := afterSetup, mem := restartMem c afterSetup s.cutoff true }, .err)
+          else ({ s with db := afterSetup, mem := restartMem c (s.tsAt c) afterSetup s.cutoff true }, .err)
         else if unchangedSlot && !c.migSkipsMissing then
-          ({ s with db := afterSetup, mem := restartMem c afterSetup s.cutoff true }, .err)  -- stager: key not found
+          ({ s with db := afterSetup, mem := restartMem c (s.tsAt c) afterSetup s.cutoff true }, .err)  -- stager: key not found
         else if migrateReadsOk s.db keep.toNat h then
           let db := migrateDb s.db keep.toNat h
-          ({ s with db := db, mem := restartMem c db s.cutoff true, job := .idle }, .ok)
+          ({ s with db := db, mem := restartMem c (s.tsAt c) db s.cutoff true, job := .idle }, .ok)
         else (s, .err)
 
 def run (c : Cfg) (s : St) : List Op → St
@@ -720,7 +804,7 @@ def Legal (c : Cfg) (s : St) : Op → Prop
   -- (see `migration_cutoff_zero_fails`, `migration_unchanged_slot_fails`)
   | .migrate unchangedSlot => s.job = .idle ∧ (unchangedSlot = true → c.migSkipsMissing = true) ∧
       ∀ h l1 keep, s.db.height = some h → s.db.l1 = some l1 →
-        migKeep c h l1 (migMinAgeFloor c h l1 s.cutoff) = some keep →
+        migKeep c h l1 (migMinAgeFloor (s.tsAt c) h l1 s.cutoff) = some keep →
         (0 < keep.toNat ∨ c.migZeroNoop = true) ∧ max (lo s.db) s.mem.keepMax ≤ keep.toNat
   | _ => True
 
